@@ -83,6 +83,38 @@ def gen_total(tier, rng):
         out.append(req)
     return out
 
+def gen_total_dst(tier, rng):
+    out = []
+    days = [datetime.date(2024, 3, 30), datetime.date(2024, 3, 31), datetime.date(2024, 4, 1), datetime.date(2024, 10, 26), datetime.date(2024, 10, 27), datetime.date(2024, 10, 28)]
+    for base in days:
+        minutes = sorted(set(list(range(0, 1440, 15)) + list(range(0, 185)) + list(range(1380, 1440))))
+        if tier == "quick": minutes = minutes[::3] + [30, 45, 90, 150, 1410]
+        for mnt in minutes:
+            if base == datetime.date(2024, 3, 31) and 120 <= mnt < 180:
+                continue       # that hour does not exist on the day the clocks go forward
+            for delta in (0, -1, -2):
+                d = base + datetime.timedelta(days=delta)
+                start = rng.choice([0, 600, 1320, 1439, max(0, mnt - 1)])
+                text = "%04d-%02d-%02d\n    %d:%02d - ?\n    5m\n" % (d.year, d.month, d.day, start // 60, start % 60)
+                req = "eval-total %d %d %d %d %d 1 %s" % (base.year, base.month, base.day, mnt // 60, mnt % 60, text.encode().hex())
+                if delta == -2: want = "err uncloseable"
+                else:
+                    end = mnt + (1440 if delta == -1 else 0)
+                    want = "err uncloseable" if end < start else "ok %d 0 %d 1" % (5 + end - start, 5 + end - start)
+                EXPECT[req] = want
+                out.append(req)
+    return out
+
+def gen_total_cfg(tier, rng):
+    """the same evaluations with a configuration file present (default should-total, rounding, date format, clock convention):
+       settings for what klog writes must not change what it reports"""
+    out = []
+    for req in gen_total(tier, rng)[: (1500 if tier == "quick" else 100000)]:
+        r2 = "eval-total-cfg" + req[len("eval-total"):]
+        if req in EXPECT: EXPECT[r2] = EXPECT[req]
+        out.append(r2)
+    return out
+
 def oracle_total(req, out):
     want = EXPECT.get(req)
     if want is None: return None
@@ -94,5 +126,11 @@ def suites():
     return [
         Suite("total", gen_total, oracle=oracle_total,
               rule="`klog total --diff [--now]` on conforming documents (mixed +/-/0 durations, all shift combinations, open ranges, duplicate dates, missing/negative should-totals) at an instant on / one day after / away from a record's date; non-trivial = a total was reported",
+              nontrivial=lambda r, o: o.startswith("ok")),
+        Suite("total-with-config", gen_total_cfg, oracle=oracle_total, model=False,
+              rule="oracle-only: the same requests with a config.ini (default_should_total, default_rounding, date_format, time_convention) in klog's config folder: the reported total, should-total and diff must not change",
+              nontrivial=lambda r, o: o.startswith("ok")),
+        Suite("total-dst", gen_total_dst, oracle=oracle_total, env={"TZ": "Europe/Berlin"},
+              rule="`klog total --now` with the process in TZ=Europe/Berlin on the days around the daylight-saving switches of 2024 (30 March - 1 April, 26 - 28 October) at every quarter of an hour and every minute of the hours after midnight: yesterday is the previous calendar day, not `24 hours ago`",
               nontrivial=lambda r, o: o.startswith("ok")),
     ]
